@@ -13,6 +13,7 @@
 -/
 import ApiFu.C05.R.Lemmas
 import ApiFu.C05.R.LemmasSpec
+import ApiFu.C05.R.LemmasStatic
 
 namespace ApiFu.C05.R
 open ApiFu.C05 (Scalar GoVal Lit Parse CV Vars containsVar noDupNames collect collect_lookup_find collect_lookup_mem
@@ -403,6 +404,20 @@ theorem go_kinds_sound (P : Parse) (k : Scalar) (v : In) (x : GoVal) (hw : v.wf 
     · rename_i hc; simp at h; subst h; exact ⟨_, rfl, by simp [ApiFu.C05.Spec.scalar, hc]⟩
     · simp at h
 
+/-! ## static_agrees -/
+
+/-- **static_agrees.** On literals without variables and without duplicate object fields,
+    `validateCoercion` reports no error exactly when `coerceLiteral` succeeds — for recursive input
+    types and custom scalars as well. For types with an `InputCoercion` hook the static check cannot
+    foresee the hook's own verdict: the equivalence is stated for hooks that do not fail
+    (`hooksTotal`); with a failing hook a validated literal is a run-time coercion error (field
+    error, resolver not invoked) — see the example below. -/
+theorem static_agrees (Pm : Params) (env : Env) (hh : HookOK Pm)
+    (hooksTotal : ∀ n m, (Pm.hook n m).isSome = true) (fuel : Nat) (T : Ty) (l : Lit) (allow : Bool)
+    (hc : containsVar l = false) (hd : l.noDup = true) :
+    validateCoercion Pm env fuel T l allow = true ↔ ∃ x, coerceLit Pm env [] fuel T l allow = some x := by
+  rw [validate_eq_coerces Pm env hh hooksTotal fuel T l allow hc hd, Option.isSome_iff_exists]
+
 /-! ## Non-vacuity: a recursive type, a hook, Go kinds -/
 
 /-- `input In { c: [In], e: In, x: Int! = 5 }` with a hook on `H { y: Int }`. -/
@@ -429,6 +444,8 @@ example : coerceVar exParams exEnv 9 (.ref "In") (.obj [("e", .obj [("x", .intk 
 example : coerceLit exParams exEnv [] 1 (.ref "H") (.obj [("y", .int 2)]) true
     = some (.obj [("$fields", .obj [("y", .int 2)]), ("$hook", .str "H")]) := by rfl
 example : coerceLit exParams exEnv [] 1 (.ref "H") (.obj [("y", .null)]) true = none := by rfl
+-- … which validation cannot know (necessity of `hooksTotal` in `static_agrees`)
+example : validateCoercion exParams exEnv 1 (.ref "H") (.obj [("y", .null)]) true = true := by rfl
 -- Go kinds: no wrap-around, no truncation
 example : scalarVar (fun _ => none) .int (.intk .u64 18446744073709551615) = none := by rfl
 example : scalarVar (fun _ => none) .longInt (.intk .u64 9007199254740992) = none := by rfl
